@@ -513,7 +513,11 @@ class Model(Object):
         metabolite_list = [x for x in metabolite_list if x.id not in self.metabolites]
 
         bad_ids = [
-            m for m in metabolite_list if not isinstance(m.id, str) or len(m.id) < 1
+            m
+            for m in metabolite_list
+            if not isinstance(m.id, str)
+            or len(m.id) < 1
+            or any(char.isspace() for char in m.id)
         ]
         if len(bad_ids) != 0:
             raise ValueError(f"invalid identifiers in {repr(bad_ids)}")
@@ -734,6 +738,17 @@ class Model(Object):
 
         # First check whether the reactions exist in the model.
         pruned = DictList(filter(existing_filter, reaction_list))
+
+        # The solver cannot hold empty names or names with whitespace.
+        bad_ids = [
+            rxn
+            for rxn in pruned
+            if not isinstance(rxn.id, str)
+            or len(rxn.id) < 1
+            or any(char.isspace() for char in rxn.id)
+        ]
+        if len(bad_ids) != 0:
+            raise ValueError(f"invalid identifiers in {repr(bad_ids)}")
 
         context = get_context(self)
 
